@@ -1,5 +1,5 @@
 """R-SIBLING: implementations of one interface agree on their effect summary."""
-from vlib.facts import walk, CheckError
+from vlib.facts import walk, CheckError, place_path
 from vlib.report import RuleResult
 
 LF = "ir::module::module_functions::LocalFunction"
@@ -220,4 +220,42 @@ def instrumenter_siblings(F, pairs=(("ModuleIterator", "ComponentIterator"), ("M
                               "`%s` differs between %s and %s: only in %s: %s; only in %s: %s" % (m, a, b, a, only_a, b, only_b),
                               {"only_" + a: only_a, "only_" + b: only_b})
     r.count("compared_methods", n)
+    return r
+
+
+def reindexable_impls(F):
+    """R-REINDEXABLE-IMPL: Module::reorganise_generic is written against the ReIndexable vocabulary (len / remove / insert /
+    push) and its bookkeeping (R-REORG-INV) assumes Vec semantics for each word: remove(i) shifts the tail down by one and
+    keeps the order, insert(i, x) shifts it up, push appends.  Every `impl ReIndexable for X` must therefore forward each
+    method to the std method *of the same name* on its backing vector and do nothing else to it — the three sibling
+    implementations agree because each agrees with Vec (a `swap_remove` is O(1) and reorders the survivors)."""
+    r = RuleResult("R-REINDEXABLE-IMPL",
+                   "each method of every `impl ReIndexable` forwards to the std method of the same name on a field of self (remove→Vec::remove, not swap_remove; insert→Vec::insert; push→Vec::push; len→len) and calls no other std method on that field")
+    n = 0
+    owners = set()
+    for f in F.fns:
+        if not (f.get("impl_trait") or "").endswith("ReIndexable") or f.get("body") is None:
+            continue
+        n += 1
+        owners.add(f.get("self_adt"))
+        r.analysed.append(f["path"])
+        called = set()
+        for c in walk(f["body"]):
+            if c.get("k") == "MethodCall" and (c.get("callee") or "").startswith(("std::", "alloc::", "core::")):
+                pp = place_path(c["recv"]) or ""
+                if pp.startswith("self."):
+                    called.add(c["method"])
+        if not called:
+            r.undecided("%s: no std call on a field of self (the backing store is reached some other way)" % f["path"])
+            continue
+        ok = called == {f["name"]}
+        r.ob(ok, {"impl": f["path"], "forwards to": sorted(called)})
+        if not ok:
+            r.violate("%s | forwards to %s" % (f["path"], "+".join(sorted(called))), F.loc(f),
+                      "ReIndexable::%s of %s calls %s on its backing vector instead of exactly `%s`: reorganise_generic's position bookkeeping assumes Vec::%s semantics (order-preserving, tail shifted by one)" % (
+                          f["name"], (f.get("self_adt") or "").split("::")[-1], sorted(called), f["name"], f["name"]))
+    r.count("reindexable_methods", n)
+    r.count("reindexable_impls", len(owners))
+    if n == 0:
+        raise CheckError("no impl of ReIndexable found")
     return r
